@@ -276,6 +276,9 @@ func init() {
 				r.Header.Set("Content-Type", ct)
 				rr := httptest.NewRecorder()
 				f.GW.Handler(rr, r)
+				if r.MultipartForm != nil {
+					r.MultipartForm.RemoveAll() // what net/http's server does after the handler has returned
+				}
 				sigs, reached, genErrs := JudgeUpload(f, l, rr.Code, rr.Body.Bytes())
 				for _, g := range genErrs {
 					em.GenError(g)
